@@ -42,6 +42,18 @@ def tuple_from_normalize(f, d, rv):
     return ok, str(srcs)
 
 
+def change_units(F, h):
+    """the per-change units of work of on_did_change: its closures, and functions of crate glas::server it calls, that
+    splice (Vfs::change_file_content) or convert a range"""
+    cands = list(F.with_closures(h.path)[1:])
+    for b, t in h.calls():
+        c = callee(t) or ""
+        if c.startswith("glas::server::") and c in F.fns and F.fns[c].blocks and c not in cands:
+            cands.append(c)
+    return [c for c in cands if any(callee(t) in (VFS + "::change_file_content", "glas::convert::from_range")
+                                    for b, t in F.fns[c].calls())]
+
+
 def run(F, res, tier):
     # ---- D1
     ws = EF.writers(F, VFS, "files", "glas::")
@@ -84,16 +96,16 @@ def run(F, res, tier):
     # ---- D2
     h = F.fn(S + "on_did_change")
     loops = [(t, hd, h.natural_loop(t, hd)) for t, hd in h.back_edges()]
-    clos = F.with_closures(h.path)[1:]
-    conv_in_closure = [c for c in clos if any(callee(t) == "glas::convert::from_range" for b, t in F.fns[c].calls())]
+    units = change_units(F, h)
+    conv_in_closure = [c for c in units if any(callee(t) == "glas::convert::from_range" for b, t in F.fns[c].calls())]
     call_sites = [b for b, t in h.calls() if callee(t) in conv_in_closure]
     direct_conv = [b for b, t in h.calls() if callee(t) in ("glas::convert::from_range", "glas::convert::from_pos", VFS + "::line_map_for_file")]
     in_loop = lambda b: any(b in body for _, _, body in loops)  # noqa: E731
-    apply_sites = [c for c in clos if any(callee(t) == VFS + "::change_file_content" for b, t in F.fns[c].calls())]
+    apply_sites = [c for c in units if any(callee(t) == VFS + "::change_file_content" for b, t in F.fns[c].calls())]
     ok = bool(call_sites) and all(in_loop(b) for b in call_sites) and all(in_loop(b) for b in direct_conv) and \
         set(conv_in_closure) == set(apply_sites)
     res.ob("D2", "on_did_change/line-map-reread-per-change", "each change's range is converted with the line map of the text as it is after the "
-           "previous change (conversion and splice happen in the same per-change closure, called inside the loop)", ok, where=h.loc(),
+           "previous change (conversion and splice happen in the same per-change closure or helper, called inside the loop)", ok, where=h.loc(),
            how="closure call sites in loop: %s; conversions outside the loop: %d" % ([in_loop(b) for b in call_sites], sum(1 for b in direct_conv if not in_loop(b))))
     fr = F.fn("glas::convert::from_range")
     lm = [b for b, t in fr.calls() if callee(t) == VFS + "::line_map_for_file"]
